@@ -220,6 +220,15 @@ var specC17Model = Register(&Spec[ClDoc]{
 		if err := entriesMatch(again, d.Entries); err != nil {
 			return errf("after failed parses of other input: %v (changelog %q)", err, text)
 		}
+		for name, mk := range oddReaders {
+			g, err := changelog.Parse(mk(strings.NewReader(text)))
+			if err != nil {
+				return errf("Parse over a %s rejected a well-formed changelog %q: %v", name, text, err)
+			}
+			if err := entriesMatch(g, d.Entries); err != nil {
+				return errf("Parse over a %s: %v (changelog %q)", name, err, text)
+			}
+		}
 		one, err := changelog.ParseOne(bufio.NewReader(strings.NewReader(text)))
 		if err != nil || one == nil {
 			return errf("ParseOne failed on %q: %v", text, err)
